@@ -3,7 +3,8 @@ PROP = {'rule': 'rapid-generated cases. drift: state machine (<=40 steps) over p
          'Reserve / Unreserve|Forget / bound OnUpdate (also bound elsewhere) / OnUpdate(resources | spec.priority flip | conditions | '
          'terminated | nodeName change | metadata only) / OnDelete (also tombstone) / NodeMetric add|update (update time aimed at '
          'assignTime+reportInterval and at estimation deadlines, +-1s/+-1ns; per-pod usage aimed at the estimate: =,+-1,/2,*2,0, missing, '
-         'empty, wrong prod flag, dangling and nil entries; aggregated usages; empty status) / NodeMetric delete / clock tick / read-only '
+         'empty, wrong prod flag, dangling and nil entries; pods that opt out of estimation with all-zero custom scaling factors (cached '
+         'without estimation vector) get arbitrary non-zero reported usage; aggregated usages; empty status) / NodeMetric delete / clock tick / read-only '
          'probe (real PreFilter+Filter and/or Score of a drawn incoming pod, 1-4 times in a row, with drawn thresholds / aggregated '
          'filter+score profiles incl. types/periods the metric does not report, optional custom-aggregation node annotation), on 3 nodes; '
          'after every step all 22 query modes (prod, whole node, 4 aggregation types x 5 periods) of every node are compared with a fresh '
